@@ -18,7 +18,16 @@ struct Class {
     mask: u32,
 }
 
-fn classes(variant: &str) -> Vec<Class> {
+fn classes(variant: &str, no_avx512: bool) -> Vec<Class> {
+    let v = classes_all(variant);
+    if no_avx512 {
+        v.into_iter().filter(|c| c.imp != 4 && c.mask & 96 == 0).collect()
+    } else {
+        v
+    }
+}
+
+fn classes_all(variant: &str) -> Vec<Class> {
     let mut v = Vec::new();
     let kinds_of = |imp: u8, abi: u8| -> Vec<u8> {
         match (imp, abi) {
@@ -198,8 +207,8 @@ fn api_rec(o: &mut Vec<u8>, idx: u64, slot: u8, op: u8, pl_data: u8, pl_out: u8,
     w32(o, mask);
 }
 
-fn api_history(o: &mut Vec<u8>, idx: u64, rng: &mut Rng, tbb: bool, disagreements: &mut Vec<String>) {
-    let mask = *rng.pick(&MASKS);
+fn api_history(o: &mut Vec<u8>, idx: u64, rng: &mut Rng, tbb: bool, no_avx512: bool, disagreements: &mut Vec<String>) {
+    let mask = if no_avx512 { *rng.pick(&MASKS[..4]) } else { *rng.pick(&MASKS) };
     let mut slots: Vec<Option<SlotModel>> = (0..4).map(|_| None).collect();
     let nops = 3 + rng.usize_below(12);
     let big = rng.chance(1, 25);
@@ -316,7 +325,8 @@ pub fn run(args: &Args) {
     let tbb = args.get("tbb") == Some("1");
     let only_class = args.get("class").map(|s| s.to_string());
     let total = if what == "kernels" { args.n(600_000, 12_000_000) } else { args.n(4000, 150_000) };
-    let cls = classes(&variant);
+    let no_avx512 = args.get("no-avx512") == Some("1");
+    let cls = classes(&variant, no_avx512);
     let stdout = std::io::stdout();
     let mut out = stdout.lock();
     let mut buf: Vec<u8> = Vec::with_capacity(1 << 20);
@@ -340,7 +350,7 @@ pub fn run(args: &Args) {
             }
             kernel_record(&mut buf, idx, c, idx / cls.len() as u64, &mut rng);
         } else {
-            api_history(&mut buf, idx, &mut rng, tbb, &mut disagreements);
+            api_history(&mut buf, idx, &mut rng, tbb, no_avx512, &mut disagreements);
         }
         if buf.len() > (1 << 20) {
             out.write_all(&buf).expect("write script");
